@@ -17,6 +17,8 @@ def corpus(d, tier):
     shares = (("mixed", 0.35), ("enums", 0.15), ("closures", 0.15), ("loops", 0.15), ("strings", 0.1), ("boundary", 0.1))
     for prof, share in shares:
         programs += pc.generated_programs(d, max(1, int(n * share)), SEED + 3, prof)
+    # accepted mutants of the repository's own sample programs and standard library
+    programs += pc.token_mutants(60 if tier == "quick" else 1500, SEED + 33)
     return programs
 
 
@@ -42,7 +44,7 @@ def run(tier):
     distinct = len({json.dumps(r.get("sources"), sort_keys=True) for r in recs if r.get("front") == "accepted"})
     coverage = {
         "evaluations": sum(len(r.get("builds", {})) for r in recs), "distinct_nontrivial": distinct,
-        "rule": "programs: tests.AllTests + one wrapper per repository test class + seeded type-directed generated programs over 6 profiles; "
+        "rule": "programs: tests.AllTests + one wrapper per repository test class + seeded type-directed generated programs over 6 profiles + single-token mutants of the repository's samples and std (only those the checker accepts are judged); "
                 "non-trivial = accepted by the checker (so the property's premise holds); distinct by source text",
         "samples": [{"origin": r["origin"], "front": r.get("front"),
                      "ends": {b: {k: v[k]["end"] for k in ("wasm", "ts") if k in v} for b, v in r.get("builds", {}).items()}}
